@@ -186,6 +186,45 @@ pub fn large_histories(seed: u64, n: usize, with_crash: bool) -> RunOut {
     c.out
 }
 
+/// Medium-sized cores with range operations at every word alignment (C08/C01): batch appends and
+/// clears whose ends fall on, just before and just after 32-bit word edges, has() scanned on every
+/// index after each operation.
+pub fn word_histories(seed: u64, n: usize) -> RunOut {
+    let mut r = Rng::new(seed);
+    let mut c = Ctx { sim: Sim::new(), out: RunOut { ops: vec![], outs: vec![], stats: BTreeMap::new(), failures: vec![], samples: vec![] }, seen: HashSet::new(), hist_digest: String::new() };
+    let near_edge = |r: &mut Rng, lo: u64, hi: u64| -> u64 {
+        // a value in [lo, hi] whose residue mod 32 is 31, 0 or 1 when one exists, else any
+        let cands: Vec<u64> = (lo..=hi).filter(|x| matches!(x % 32, 31 | 0 | 1)).collect();
+        if cands.is_empty() || r.chance(1, 4) { r.range(lo, hi) } else { *r.pick(&cands) }
+    };
+    for _ in 0..n {
+        c.run(format!("new W {SEED_HEX}"));
+        let nops = r.range(5, 14);
+        for _ in 0..nops {
+            let len = c.sim.h["W"].oracle.len;
+            match r.below(10) {
+                0..=3 => { let e = near_edge(&mut r, len + 1, len + 100); *c.out.stats.entry(format!("fill_end_mod32_{}", e % 32)).or_insert(0) += 1; c.run(format!("fill W {} {}", e - len, r.below(200))); }
+                4..=7 if len > 1 => {
+                    let s = if r.chance(1, 2) { near_edge(&mut r, 0, len - 1) } else { r.below(len) };
+                    let e = near_edge(&mut r, s + 1, len + 2);
+                    *c.out.stats.entry(format!("clear_end_mod32_{}", e % 32)).or_insert(0) += 1;
+                    if e - s >= 31 { *c.out.stats.entry("clear_31_or_more".into()).or_insert(0) += 1; }
+                    c.run(format!("clear W {s} {e}"));
+                }
+                8 => { c.run("reopen W".into()); }
+                _ => { c.run(format!("append W {}", hex(&gen_block(&mut r, false)))); }
+            }
+            c.run("scan W".into());
+            if r.chance(1, 3) { c.run("probe W".into()); }
+        }
+        c.run("reopen W".into());
+        c.run("scan W".into());
+        c.run("probe W".into());
+        c.end_history();
+    }
+    c.out
+}
+
 /// Honest replication (C03): a writer W with appends/clears, one or two replicas fetching in random
 /// request orders; every request is well-formed (nodes from missing_nodes, upgrade from the
 /// replica's own length whenever it is behind).
@@ -244,6 +283,47 @@ pub fn replication_histories(seed: u64, n: usize, max_len: u64, with_crash: Mode
                     if with_crash != Mode::Log { c.crash_points("R", with_crash, &mut r, 10); }
                     if r.chance(1, 4) { c.run("probe R".into()); }
                     if r.chance(1, 8) { c.run("reopen R".into()); c.run("probe R".into()); }
+                }
+            }
+        }
+        // hash sweep: ask for the hash of every inner node below the replica's length, in a random
+        // order, with the node count the replica's own missing-node query reports
+        if with_crash == Mode::Log && c.sim.h["R"].oracle.len >= 2 && c.sim.h["R"].oracle.len <= 48 && r.chance(1, 3) {
+            let rl = c.sim.h["R"].oracle.len;
+            let mut nodes: Vec<u64> = vec![];
+            let mut span = 2u64;
+            while span <= rl { let mut lo = 0; while lo + span <= rl { nodes.push(lo * 2 + span - 1); lo += span; } span *= 2; }
+            for i in (1..nodes.len()).rev() { let j = r.below(i as u64 + 1) as usize; nodes.swap(i, j); }
+            nodes.truncate(12);
+            *c.out.stats.entry("hash_sweep_histories".into()).or_insert(0) += 1;
+            for ti in nodes {
+                let o = c.run(format!("missingt R {ti}"));
+                let nn: u64 = o.strip_prefix("ok ").and_then(|x| x.parse().ok()).unwrap_or(0);
+                let o = c.run(format!("prove W - {ti}:{nn} - -"));
+                if o.starts_with("ok fork") {
+                    let t = crate::sim::proof_full_txt(c.sim.proof.as_ref().unwrap());
+                    c.run(format!("applyp R {t}"));
+                }
+            }
+            c.run("probe R".into());
+        }
+        // dense phase: bring the replica up to date and fetch every block it lacks in a random
+        // order, so that gaps are filled next to runs of blocks that arrived earlier
+        if with_crash == Mode::Log && c.sim.h["W"].oracle.len <= 48 && r.chance(1, 2) {
+            let wl = c.sim.h["W"].oracle.len;
+            let mut want: Vec<u64> = (0..wl).filter(|i| c.sim.h["W"].oracle.held[*i as usize] && !(c.sim.h["R"].oracle.len > *i && c.sim.h["R"].oracle.held[*i as usize])).collect();
+            for i in (1..want.len()).rev() { let j = r.below(i as u64 + 1) as usize; want.swap(i, j); }
+            *c.out.stats.entry("dense_fetch_histories".into()).or_insert(0) += 1;
+            for i in want {
+                let rl = c.sim.h["R"].oracle.len;
+                let ups = if rl < wl { format!("{rl}:{}", wl - rl) } else { "-".to_string() };
+                let o = c.run(format!("missing R {i}"));
+                let nn: u64 = o.strip_prefix("ok ").and_then(|x| x.parse().ok()).unwrap_or(0);
+                let o = c.run(format!("prove W {i}:{nn} - - {ups}"));
+                if o.starts_with("ok fork") {
+                    let t = crate::sim::proof_full_txt(c.sim.proof.as_ref().unwrap());
+                    c.run(format!("applyp R {t}"));
+                    c.run("probe R".into());
                 }
             }
         }
